@@ -868,7 +868,8 @@ Qed.
 (* nextJobID++: the prepared job is in flight *)
 
 Lemma gm_post cfg s s' :
-  GM cfg s true -> length (jobs s) = N.to_nat (Mr cfg) -> next (mt s) < done (mt s) + Mr cfg -> done (mt s) <= next (mt s) -> SrOk s -> sr s' = sr s ->
+  GM cfg s true -> length (jobs s) = N.to_nat (Mr cfg) -> next (mt s) < done (mt s) + Mr cfg -> done (mt s) <= next (mt s) ->
+  s_lw (sr s) = s_w (sr s) /\ s_next (sr s) <= next (mt s) -> sr s' = sr s ->
   mgf' (mt s') = (next (mt s) + 1, ended (mt s), rpos (mt s), rcap (mt s), (ihas (mt s), istart (mt s), ifill (mt s)), (pstart (mt s), psize (mt s)),
                   (target (mt s), ptarget (mt s), wsize (mt s)), lap (mt s), ldm (mt s)) ->
   done (mt s') = done (mt s) ->
@@ -1025,7 +1026,7 @@ Proof.
     assert (Hkl : (slot cfg (next (mt s)) < length (jobs s))%nat) by (rewrite (k_len _ _ K); apply slot_lt).
     inv_some H. apply ginv_at; [discriminate|..]; [pg_same N|]. intros _ _. unfold pbof. cbn [awake set_cpc set_cl cl_pc c_pc cl mt set_mt mt_ring ready]. rewrite Pr. cbn [orb].
     split; [|exact I].
-    eapply (gm_post cfg s); [exact G|exact (k_len _ _ K)|exact Hlt|exact (proj1 (k_rng _ _ K))|exact SR|reflexivity|reflexivity|reflexivity| |].
+    eapply (gm_post cfg s); [exact G|exact (k_len _ _ K)|exact Hlt|exact (proj1 (k_rng _ _ K))|exact (conj (proj1 SR) ltac:(destruct (proj2 SR) as [X|(X & _)]; [exact X|rewrite Epc in X; discriminate]))|reflexivity|reflexivity|reflexivity| |].
     + intros k Hk. rewrite getj_set_mt. rewrite getj_set_job_neq by auto. reflexivity.
     + right. rewrite getj_set_mt, getj_set_job_eq by exact Hkl. split; [exact Psz|]. match goal with |- context[if ?b then _ else _] => destruct b end; cbn; repeat split; try reflexivity; exact Psz.
   - (* CTryAdd *)
@@ -1038,7 +1039,7 @@ Proof.
       split; [|exact I]. eapply gm_ext; [..|exact G]; first [reflexivity|intros; reflexivity].
     + apply ginv_at; [discriminate|..]; [pg_same N|]. intros _ _. unfold pbof. cbn [awake set_cpc set_cl cl_pc c_pc cl mt set_mt mt_ring ready orb].
       split; [|exact I].
-      eapply (gm_post cfg s); [exact G|exact (k_len _ _ K)|exact Hlt|exact (proj1 (k_rng _ _ K))|exact SR|reflexivity|reflexivity|reflexivity| |]; [intros; reflexivity|left; reflexivity].
+      eapply (gm_post cfg s); [exact G|exact (k_len _ _ K)|exact Hlt|exact (proj1 (k_rng _ _ K))|exact (conj (proj1 SR) ltac:(destruct (proj2 SR) as [X|(X & _)]; [exact X|rewrite Epc in X; discriminate]))|reflexivity|reflexivity|reflexivity| |]; [intros; reflexivity|left; reflexivity].
   - (* CFlush *)
     assert (M : Mid cfg s) by (apply mid_of_tinv; auto; rewrite Epc; cbn; auto; discriminate).
     assert (F : Flow s) by (apply flow_of_ainv; auto; rewrite Epc; reflexivity).
@@ -1061,7 +1062,7 @@ Proof.
   - (* CInitBuf *)
     assert (M : Mid cfg s) by (apply mid_of_tinv; auto; rewrite Epc; cbn; auto; discriminate).
     pose proof (A4 eq_refl) as Hal. destruct (PF Hal) as (Hdn & Hst).
-    match type of H with (if _ then Some (set_cpc _ ?x) else _) = _ => set (s1 := x) in * end.
+    match type of H with Some (set_cpc _ ?x) = _ => set (s1 := x) in * end.
     assert (M1 : Mid cfg s1).
     { constructor.
       - eapply kb_reset; [apply kinv_kb; exact K|exact Hdn|..]; reflexivity.
@@ -1074,19 +1075,23 @@ Proof.
     assert (Hcap : need_cap cfg (mt s1) <= rcap (mt s1)).
     { cbn [mt s1 set_sr set_mt rcap]. unfold need_cap. cbn [wsize target ptarget]. fold (need_cap cfg (mt s)).
       destruct (rcap (mt s) <? need_cap cfg (mt s)) eqn:X; [lia|apply N.ltb_ge in X; exact X]. }
-    destruct (ldm (mt s)) eqn:Eldm; inv_some H.
-    + (* ZSTDMT_setNbSeq and the reset of the LDM window are still to come *)
-      split; [apply pg_pc; exact N1|]. intros _ _. cbn [awake set_cpc set_cl cl_pc c_pc cl].
-      unfold Fresh. cbn [mt sr s1 set_cpc set_cl set_sr set_mt done next ready ended rpos ihas ifill psize s_next]. repeat split; auto.
-    + assert (G1 : GM cfg s1 false).
-      { destruct N as (N0 & _). destruct AT as (T0 & _).
-        apply gm_fresh; try reflexivity; cbn [mt s1 set_sr set_mt rcap target ptarget ldm]; auto. intros X. rewrite ?Eldm in X. discriminate. }
-      apply gi_finish_ok; [exact M1|intros X; discriminate|exact N1|intros _; exact G1].
+    inv_some H.
+    (* ZSTDMT_setNbSeq (and, for an LDM frame, the reset of the LDM window) are still to come *)
+    split; [apply pg_pc; exact N1|]. intros _ _. cbn [awake set_cpc set_cl cl_pc c_pc cl].
+    unfold Fresh. cbn [mt sr s1 set_cpc set_cl set_sr set_mt done next ready ended rpos ihas ifill psize s_next]. repeat split; auto.
+    cbn [ldm]. intros X. rewrite X. reflexivity.
   - (* CInitSeq *)
     assert (M : Mid cfg s) by (apply mid_of_tinv; auto; rewrite Epc; cbn; auto; discriminate).
     assert (F : Flow s) by (apply flow_of_ainv; auto; rewrite Epc; reflexivity).
-    inv_some H. apply gi_finish_ok; [mid_same M|apply flow_flow0; exact F|pg_same N|].
-    intros Ha. destruct (GI Ha eq_refl) as (F1 & F2 & F3 & F4 & F5 & F6 & F7 & F8 & F9 & F10).
-    destruct N as (N0 & _). destruct AT as (T0 & _).
-    cbn [mt set_sr set_pl ready]. rewrite F3. apply gm_fresh; auto.
+    destruct (ldm (mt s)) eqn:Eldm; inv_some H.
+    + apply gi_finish_ok; [mid_same M|apply flow_flow0; exact F|pg_same N|].
+      intros Ha. destruct (GI Ha eq_refl) as (F1 & F2 & F3 & F4 & F5 & F6 & F7 & F8 & F9 & F10).
+      destruct N as (N0 & _). destruct AT as (T0 & _).
+      cbn [mt set_sr set_pl ready]. rewrite F3. apply gm_fresh; auto.
+    + (* a frame without LDM: the windows are left alone, nobody reads them *)
+      apply gi_finish_ok; [mid_same M|apply flow_flow0; exact F|pg_same N|].
+      intros Ha. destruct (GI Ha eq_refl) as (F1 & F2 & F3 & F4 & F5 & F6 & F7 & F8 & F9 & F10).
+      destruct N as (N0 & _). destruct AT as (T0 & _).
+      cbn [mt set_sr set_pl ready]. rewrite F3. apply gm_fresh; auto.
+      cbn [mt set_pl set_sr]. intros X. change (ldm (mt s) = true) in X. rewrite Eldm in X. discriminate.
 Qed.
